@@ -13,7 +13,7 @@ run() { # name patch prop
   S=$(mktemp -d /tmp/self.XXXXXX)
   git -C /repo worktree add -q --detach "$S" HEAD || exit 2
   if ! git -C "$S" apply "$PATCH" 2>/dev/null; then echo "$NAME: PATCH-DOES-NOT-APPLY"; git -C /repo worktree remove --force "$S"; return; fi
-  V=$(mktemp -d /tmp/selfv.XXXXXX); cp /verif/known_findings.txt "$V/"
+  V=$(mktemp -d /tmp/selfv.XXXXXX); cp /verif/known_findings.txt "$V/"; cp -r /verif/models "$V/models" 2>/dev/null
   START=$(date +%s)
   OUT=$(timeout 1200 /verif/bin/govc check -repo "$S" -verif "$V" -prop "$PROP" 2>&1); RC=$?
   N=$(echo "$OUT" | grep -c '^VIOLATION')
